@@ -1,6 +1,6 @@
 (* C10 — defaults, annotations and kinds of combined parameters. *)
 From Sigtools.Model Require Import Base Bind Roles Algebra.
-From Sigtools.Proofs Require Import SmallModel Basics ProvKeys Contrib ContribEmbed.
+From Sigtools.Proofs Require Import SmallModel Basics ProvKeys Contrib ContribEmbed ContribMore.
 
 Theorem C10_optional_iff l r : has_def (concile l r) = has_def l && has_def r.
 Proof. exact (concile_optional_iff l r). Qed.
@@ -91,4 +91,22 @@ Print Assumptions C10_sig_partial_kw.
 Theorem C10_mask_gen_order : forall (s : sigT) (n : nat) (h : hideflags) (named : list (name * N)) (pm : pmode) (r : sigT), mask_gen s n h named pm = Ok r -> valid_sig (params s) = true -> names_of (positional (params r)) = filter (fun x : N => mem x (names_of (positional (params r)))) (names_of (positional (params s))).
 Proof. exact @ContribEmbed.mask_gen_order. Qed.
 Print Assumptions C10_mask_gen_order.
+
+
+(* ---- contributors of forwards, order of positional and keyword-only parameters after merge (Proofs/ContribMore.v) ---- *)
+Theorem C10_forwards_contrib : forall (o i : sigT) (n : nat) (names0 : list name) (ha hk uva uvk pt : bool) (r : sigT), forwards o i n names0 ha hk uva uvk pt = Ok r -> Forall (ContribEmbed.econtrib (params o) (finner pt (params i))) (params r).
+Proof. exact @ContribMore.forwards_contrib. Qed.
+Print Assumptions C10_forwards_contrib.
+
+Theorem C10_forwards_optional : forall (o i : sigT) (n : nat) (names0 : list name) (ha hk uva uvk : bool) (r : sigT) (p : param), forwards o i n names0 ha hk uva uvk false = Ok r -> In p (params r) -> has_def p = true -> exists q : param, (In q (params o) \/ In q (params i)) /\ pname q = pname p /\ has_def q = true.
+Proof. exact @ContribMore.forwards_optional. Qed.
+Print Assumptions C10_forwards_optional.
+
+Theorem C10_merge2_order_pos : forall a b r : sigT, merge [a; b] = Ok r -> valid_sig (params a) = true -> valid_sig (params b) = true -> let LP := positional (params a) in let RP := positional (params b) in let n := Nat.min (length LP) (length RP) in map erase (firstn n (positional (params r))) = map erase (zipl LP RP) /\ names_of (skipn n (positional (params r))) = filter (fun x : N => mem x (names_of (skipn n (positional (params r))))) (names_of (skipn (length RP) LP ++ skipn (length LP) RP)).
+Proof. exact @ContribMore.merge2_order_pos. Qed.
+Print Assumptions C10_merge2_order_pos.
+
+Theorem C10_merge2_order_kwo : forall a b r : sigT, merge [a; b] = Ok r -> valid_sig (params a) = true -> valid_sig (params b) = true -> let LP := positional (params a) in let RP := positional (params b) in let lA := names_of (filter (is_kind PK) (skipn (length RP) LP)) in let lB := names_of (filter (is_kind PK) (skipn (length LP) RP)) in let KA := names_of (kwonly (params a)) in let KB := names_of (kwonly (params b)) in names_of (kwonly (params r)) = filter (fun x : N => mem x KB) KA ++ filter (fun x : N => mem x KB || has_kind VK (params b) && negb (has_kind VP (params b))) lA ++ filter (fun x : N => mem x KA || has_kind VK (params a) && negb (has_kind VP (params a))) lB ++ (if has_kind VK (params b) then filter (fun x : N => negb (mem x KB) && negb (mem x lB)) KA else []) ++ (if has_kind VK (params a) then filter (fun x : N => negb (mem x KA) && negb (mem x lA)) KB else []).
+Proof. exact @ContribMore.merge2_order_kwo. Qed.
+Print Assumptions C10_merge2_order_kwo.
 
